@@ -540,3 +540,42 @@ Example C14_struct_inline_refs_example :
   is_ok (xunser w_words w_pu 30 e (xs_scope "XNested") v) = true /\
   xunser w_words w_pu 30 e s' v = xunser w_words w_pu 30 e (xs_scope "XNested") v.
 Proof. vm_compute. repeat split; reflexivity. Qed.
+
+(* ---- near-equal namespace names ----
+   Namespaces are plain strings compared for EQUALITY (Link.v: String.eqb rns ns): "Steps" and "steps" are two
+   namespaces.  An instance of C14_other_ns_untouched / C14_apply_namespaces / C14_order_irrelevant whose two external
+   namespaces differ only in letter case and hold an object of the same id with different shapes: applying "Steps"
+   links the reference into "Steps" only (the one into "steps" stays unlinked, ValidateReferences fails), and after
+   both applications, in either order, each reference denotes the object of ITS namespace. *)
+Definition c14_ci : schema :=
+  SScope [("Root", SObject "Root" false [("upper", c15_prop (SRef "Data" "Steps" None));
+                                         ("lower", c15_prop (SList (SRef "Data" "steps" None) None None))])] "Root".
+Definition c14_ci_upper : objtab := [("Data", SObject "Data" false [("u", c15_prop (SString None None None))])].
+Definition c14_ci_lower : objtab := [("Data", SObject "Data" false [("l", c15_prop (SInt None None None))])].
+Definition c14_ci_apps : list (string * objtab) := [("Steps", c14_ci_upper); ("steps", c14_ci_lower)].
+Definition p_ci_upper : lpath := [PProp "upper"; PObj "Root"].
+Definition p_ci_lower : lpath := [PItem; PProp "lower"; PObj "Root"].
+
+Example C14_near_equal_namespaces_example :
+  ns_names_ok c14_ci_apps = true /\ luniq c14_ci = true /\
+  match link_build 20 [] c14_ci [] with
+  | Ok lt0 =>
+      match apply_all 20 c14_ci [("Steps", c14_ci_upper)] lt0 with
+      | Ok lt1 => option_map le_loc (lt_get p_ci_upper lt1) = Some (LExt "Steps") /\
+                  lt_get p_ci_lower lt1 = None /\
+                  validate_refs 20 lt1 [] c14_ci = false
+      | _ => False
+      end /\
+      match apply_all 20 c14_ci c14_ci_apps lt0, apply_all 20 c14_ci (rev c14_ci_apps) lt0 with
+      | Ok lt1, Ok lt2 =>
+          option_map le_obj (lt_get p_ci_upper lt1) = alookup "Data" c14_ci_upper /\
+          option_map le_obj (lt_get p_ci_lower lt1) = alookup "Data" c14_ci_lower /\
+          option_map le_obj (lt_get p_ci_upper lt2) = alookup "Data" c14_ci_upper /\
+          option_map le_obj (lt_get p_ci_lower lt2) = alookup "Data" c14_ci_lower /\
+          option_map le_loc (lt_get p_ci_lower lt2) = Some (LExt "steps") /\
+          validate_refs 20 lt1 [] c14_ci = true /\ validate_refs 20 lt2 [] c14_ci = true
+      | _, _ => False
+      end
+  | _ => False
+  end.
+Proof. vm_compute. repeat split; reflexivity. Qed.
